@@ -73,9 +73,12 @@ static void do_builder(hctx* h, const el_t* cols, int ncols) {
     carquet_error_t err; memset(&err, 0, sizeof err);
     carquet_schema_t* s = carquet_schema_create(&err);
     int okc = 1;
-    for (int i = 0; i < ncols && s; i++)
-        if (carquet_schema_add_column(s, cols[i].name, (carquet_physical_type_t)cols[i].ptype, NULL,
+    for (int i = 0; i < ncols && s; i++) {
+        if (cols[i].ptype < 0) {       /* a group under the root: carquet_schema_add_group returns its element index */
+            if (carquet_schema_add_group(s, cols[i].name, (carquet_field_repetition_t)cols[i].rep, i % 2 ? 0 : -1) != carquet_schema_num_elements(s) - 1) okc = 0;
+        } else if (carquet_schema_add_column(s, cols[i].name, (carquet_physical_type_t)cols[i].ptype, NULL,
                                       (carquet_field_repetition_t)cols[i].rep, cols[i].tlen) != CARQUET_OK) okc = 0;
+    }
     if (!s || !okc) fprintf(h->out, " | err=1\n");
     else {
         fprintf(h->out, " | nel=%d n=%d leaves=", carquet_schema_num_elements(s), carquet_schema_num_columns(s));
@@ -170,6 +173,9 @@ static void gen_schema(hctx* h) {
             snprintf(cols[i].name, sizeof cols[i].name, "c%d", h_chance(h, 1, 10) ? (int)h_below(h, 5) : i);
             cols[i].rep = (int)h_below(h, 3); cols[i].ptype = (int)h_below(h, 8);
             cols[i].tlen = cols[i].ptype == 7 ? 1 + (int)h_below(h, 16) : 0;
+            /* groups: in every second sequence a tenth of the entries, and always the entries that land exactly at a
+             * capacity boundary (element index 64, 128, 256, ... = entry 63, 127, 255, ...) */
+            if (t % 2 == 1 && (h_chance(h, 1, 10) || i == 63 || i == 127 || i == 255 || i == 511 || i == 1023)) { cols[i].ptype = -1; cols[i].tlen = 0; snprintf(cols[i].name, sizeof cols[i].name, "g%d", i); }
         }
         do_builder(h, cols, ncols);
         free(cols);
